@@ -315,7 +315,7 @@ Ltac brkT H :=
           end);
   try (inversion H; subst; clear H).
 
-Lemma InvT_env calls s a s' : InvT s -> step_env calls s a = Some s' -> InvT s'.
+Lemma InvT_env calls s a s' : InvT s -> step_env fixed calls s a = Some s' -> InvT s'.
 Proof.
   intros HI H. unfold step_env in H. destruct a as [i|id x e| |n|f arg| |n|c|which n].
   - (* EStart *)
@@ -604,7 +604,7 @@ Proof.
   destruct (take_fault s1 1) as [[x|] s2] eqn:E2; [left; reflexivity|]. kw.
 Qed.
 
-Lemma keepW_env calls s a s' : step_env calls s a = Some s' -> keepW s s'.
+Lemma keepW_env calls s a s' : step_env fixed calls s a = Some s' -> keepW s s'.
 Proof.
   intros H. unfold step_env in H. destruct a as [i|id x e| |n|f arg| |n|c|which n].
   - destruct (tget (threads s) (TCall i)) eqn:Ht; [discriminate|].
@@ -612,7 +612,7 @@ Proof.
     set (s0 := if c_closure cs then with_closures s (i :: closures s) else s) in *.
     assert (H0 : keepW s s0) by (unfold s0; destruct (c_closure cs); kw).
     destruct (take_fault s0 2) as [[x|] s1] eqn:E1; [inversion H; subst; left; reflexivity|].
-    destruct (bclosed s1) eqn:Eb; inversion H; subst; [left; reflexivity|].
+    destruct (bclosed s1) eqn:Eb; inversion H; subst; [left; simpl; exact Eb|].
     eapply keepW_trans; [exact H0|]. eapply keepW_trans; [apply (keepW_take_fault _ _ _ _ E1)|].
     eapply keepW_gen with (t := TCall i); [discriminate|reflexivity|simpl; congruence].
   - destruct (tget (threads s) TResLoop) as [[]|] eqn:Ht; try discriminate.
